@@ -48,6 +48,7 @@ def run(repo, run, tier):
     caps(repo, run)
     endpoints(repo, run)
     bracket_invariant(repo, run)
+    product_sign_tests(repo, run)
 
 
 def _scalar_tree(fn):
@@ -219,8 +220,8 @@ def _sign_product_eval(atom, s):
     f = {"Lt": operator.lt, "LtE": operator.le, "Eq": operator.eq, "NotEq": operator.ne}.get(op)
 
     def val(x):
-        if x in ("fa*fb", "fb*fa"):
-            return s
+        if x in ("fa*fb", "fb*fa", "sign(fa)*sign(fb)", "sign(fb)*sign(fa)"):
+            return s        # the sign of the product of the values and the product of their signs are the same element of {-1, 0, 1} (exact arithmetic)
         try:
             return float(x)
         except ValueError:
@@ -355,6 +356,8 @@ def bracket_invariant(repo, run):
             short = (name or "").split(".")[-1]
             if short in ("abs", "absolute") and args and isinstance(args[0], int):
                 return ("absval", args[0])
+            if short == "sign" and args and isinstance(args[0], int):
+                return args[0]          # the abstract values ARE signs
             return NotImplemented
 
         def compare(self, op, a, b, node):
@@ -420,10 +423,46 @@ def bracket_invariant(repo, run):
             stores.setdefault(cur_mask, []).append((st.targets[0].value.id, src(st.value.value)))
     want_pos = sorted([("b", "s"), ("fb", "fs")])
     want_neg = sorted([("a", "s"), ("fa", "fs")])
-    pos = [k for k in stores if k and k.replace(" ", "") in ("cmp(fa*fsLt0)", "cmp(fa*fs Lt 0)".replace(" ", ""))]
+    def _nosign(k):
+        return k.replace(" ", "").replace("sign(fa)", "fa").replace("sign(fs)", "fs")
+    pos = [k for k in stores if k and _nosign(k) in ("cmp(fa*fsLt0)", "cmp(fs*faLt0)")]
     neg = [k for k in stores if k and k.startswith("logical_not(")]
     okv = len(pos) == 1 and sorted(stores[pos[0]]) == want_pos and len(neg) >= 1 and sorted(stores[neg[0]]) == want_neg
     run.judged(rid, "vector update: under `fa*fs < 0` %s, under its complement %s" % (stores.get(pos[0]) if pos else None, stores.get(neg[0]) if neg else None), ok=okv)
     if not okv:
         run.report("C14.6", OPT, vloop, "brentsrootvec does not apply the bracket update (b, fb) <- (s, fs) where f(a) f(s) < 0 and (a, fa) <- (s, fs) elsewhere: %s" % (
             {k: v for k, v in stores.items()},), text="brentsrootvec bracket update")
+
+
+# ------------------------------------------------------------------------------------------------
+def product_sign_tests(repo, run, rule_id="C14.7", funcs=("brentsroot", "brentsrootvec")):
+    """'whatever the scale': whether two function values have opposite signs must be decided from their signs.  The sign of the floating-point PRODUCT
+    f(a)*f(b) is not that: for |f(a) f(b)| below the smallest subnormal it is 0, so 'same sign' passes `product > 0`-rejection and `product <= 0` success,
+    and a genuine sign change fails `product < 0` (the bracket update then moves the wrong end)."""
+    rid = run.rule(rule_id, "every sign test on two function values compares signs (sign(f1)*sign(f2), or separate comparisons with zero), never the product of the "
+                            "values themselves with zero: a product of small values underflows to zero and the test then answers for a root that is not there", floor=2)
+    n = 0
+    for q in funcs:
+        fn = repo.get(OPT, q)
+        ke = KindEngine(fn, brent_seeds(), disciplines=("DIM",))
+        for cmp_ in [x for x in ast.walk(fn) if isinstance(x, ast.Compare) and len(x.ops) == 1]:
+            l, r = cmp_.left, cmp_.comparators[0]
+            for prod, other in ((l, r), (r, l)):
+                try:
+                    zero = const_value(other) == 0
+                except ValueError:
+                    zero = False
+                if not zero or not (isinstance(prod, ast.BinOp) and isinstance(prod.op, ast.Mult)):
+                    continue
+                kl, kr = ke.kind(prod.left), ke.kind(prod.right)
+                both_values = kl in ("G", "Seq(G)") and kr in ("G", "Seq(G)")
+                signs = all(isinstance(x, ast.Call) and fname(x) in ("sign", "signbit", "copysign") for x in (prod.left, prod.right))
+                if both_values or signs:
+                    n += 1
+                    run.judged(rid, "%s: %s  [%s * %s]" % (q, src(cmp_)[:70], kl, kr), ok=not both_values)
+                    if both_values:
+                        run.report(rule_id, OPT, cmp_, "%s decides a sign relation of two function values from their floating-point product `%s`: when the product underflows "
+                                                       "(|f1 f2| < 5e-324, 1.4e-45 in float32 -- small scale, flat or high-order roots) it is zero, so equal signs count as a root "
+                                                       "(false success / no rejection) and opposite signs count as none (the bracket loses the root)" % (q, src(prod)))
+    if n == 0:
+        raise AnalysisError("Brent solvers: no sign test of two function values found")
